@@ -134,6 +134,26 @@ def prepared_call(ctx) -> None:
     ctx.check(first is not None and core.src(first) == 'statement = self.statement', 'C10.prepared', fn, 'the window is cut out of the prepared statement', first or fn.node, key='prepared:base')
 
 
+def extract_binding(ctx) -> None:
+    """The source descriptor keeps each statement in its own role: Source.query(features, labels, apply, ordinal, once) builds
+    Extract(train=features, apply=apply or features, labels, ordinal, once); Extract stores (train, apply, labels,
+    Ordinal(ordinal, once)) in its field order (the ordinal column and its delivery semantic stay paired)."""
+    prog = ctx.prog
+    q = prog.func(f'{COMPONENT}:Source.query')
+    calls_ = [c for c in core.calls_in(q.node) if core.call_tail(c) == 'Extract']
+    ok = len(calls_) == 1 and [core.src(a) for a in calls_[0].args] == ['features', 'apply or features', 'labels', 'ordinal', 'once'] and not calls_[0].keywords
+    ctx.check(ok, 'C10.extract', q, 'Source.query -> Extract(features, apply or features, labels, ordinal, once)', calls_[0] if calls_ else q.node, key='query:extract')
+    new = prog.func(f'{COMPONENT}:Source.Extract.__new__')
+    sup = [c for c in core.calls_in(new.node) if isinstance(c.func, ast.Attribute) and c.func.attr == '__new__' and core.src(c.func.value) == 'super()']
+    ctx.check(len(sup) == 1 and [core.src(a) for a in sup[0].args] == ['cls', 'train', 'apply', 'labels', 'ordinal'], 'C10.extract', new, 'Extract stores (train, apply, labels, ordinal) in field order', sup[0] if sup else new.node, key='extract:stored')
+    ex = prog.cls(f'{COMPONENT}:Source.Extract')
+    bases = core.src(ex.node.bases[0]) if ex.node.bases else ''
+    ctx.check("'train, apply, labels, ordinal'" in bases, 'C10.extract', ex.ref, f'Extract fields are (train, apply, labels, ordinal) ({bases})', key='extract:fields', loc=ex.module.relpath)
+    shared.stmt_under(ctx, 'C10.extract', new, 'ordinal = cls.Ordinal(ordinal, once)', [('ordinal is not None', True)], 'the ordinal column is paired with its delivery semantic', 'extract:ordinal', inlined=False, siblings=False)
+    shared.stmt_under(ctx, 'C10.extract', new, 'train = train.statement', [], 'the train source is turned into its statement', 'extract:train', inlined=False, siblings=False)
+    shared.stmt_under(ctx, 'C10.extract', new, 'apply = apply.statement', [], 'the apply source is turned into its statement', 'extract:apply', inlined=False, siblings=False)
+
+
 def where_construction(ctx, tenv) -> None:
     prog = ctx.prog
     fn = prog.func(f'{COMPONENT}:Source.Extract.Ordinal.where').inlined()
@@ -241,6 +261,7 @@ def run(ctx) -> None:
     tenv = types.TypeEnv(prog)
     resolver = calls.Resolver(prog, tenv)
     once_table(ctx)
+    extract_binding(ctx)
     prepared_call(ctx)
     where_construction(ctx, tenv)
     from . import C06
